@@ -76,6 +76,40 @@ func (c *Ctx) DFLT(rule string, roots []string, extra []string) []report.Obligat
 			}
 		}
 	}
+	// ... and nothing the user wrote is removed: no delete on a map the function did not create
+	for _, f := range fns {
+		for _, cs := range callSites(f, func(com *ssa.CallCommon) bool {
+			bi, ok := com.Value.(*ssa.Builtin)
+			return ok && bi.Name() == "delete"
+		}) {
+			m := cs.Common().Args[0]
+			if isFreshMap(m, 4) {
+				continue
+			}
+			k := c.P.KeyTerm(cs.Common().Args[1], 2)
+			o := report.Obligation{Rule: rule, Pos: c.P.InstrPos(cs), Key: c.P.FuncID(f) + " :: delete(" + c.P.KeyTerm(m, 2) + ", " + k + ")"}
+			// removing the entry the enclosing code just moved elsewhere (a rename of a deprecated key) reads it first
+			moved := false
+			for _, b := range f.Blocks {
+				for _, in := range b.Instrs {
+					if lk, ok := in.(*ssa.Lookup); ok && sameMapVal(lk.X, m) && sameKey(lk.Index, cs.Common().Args[1]) {
+						for _, u := range valueUses(lk, 4) {
+							if mu, isMU := u.(*ssa.MapUpdate); isMU && !sameKey(mu.Key, lk.Index) {
+								moved = true
+							}
+						}
+					}
+				}
+			}
+			if moved {
+				o.Status, o.Why = report.Discharged, "the value is stored under another key before the entry is removed (a rename)"
+			} else {
+				o.Status = report.Violation
+				o.Why = "an entry the user wrote is deleted from the model while defaults are applied: the default then takes its place (an explicit 0 / false / empty value is replaced)"
+			}
+			out = append(out, o)
+		}
+	}
 	c.Stats[rule+".functions"] = len(fns)
 	return out
 }
@@ -202,6 +236,23 @@ func sameMapVal(a, b ssa.Value) bool {
 	// two loads of the same field of the same object, with no assignment of that field in the function
 	la, okA := ra.(*ssa.UnOp)
 	lb, okB := rb.(*ssa.UnOp)
+	if okA && okB && la.Op == token.MUL && lb.Op == token.MUL && la.X == lb.X {
+		// two loads of one captured variable / cell that is assigned once
+		switch x := la.X.(type) {
+		case *ssa.FreeVar:
+			return true
+		case *ssa.Alloc:
+			n := 0
+			for _, r := range *x.Referrers() {
+				if st, ok := r.(*ssa.Store); ok && st.Addr == ssa.Value(x) {
+					n++
+				}
+			}
+			if n == 1 {
+				return true
+			}
+		}
+	}
 	if okA && okB && la.Op == token.MUL && lb.Op == token.MUL {
 		fa, okA := la.X.(*ssa.FieldAddr)
 		fb, okB := lb.X.(*ssa.FieldAddr)
